@@ -79,6 +79,15 @@ def t_return_reenables(E):
     hs[0].stopped = True
     r2 = E.call(it.return_, iter([None]))
     E.prove(hs[0].stopped is True, 'an ordinary RETURN does not touch event state')
+    # RETURN <line> from the trap subroutine re-enables the event just the same
+    it2 = make_interpreter(E)
+    hs2 = _handlers(E, 2)
+    hs2[0].stopped = True
+    it2.gosub_stack = [(55, True, None), (66, True, hs2[0])]
+    r3 = E.call(it2.return_, iter([100]))
+    E.prove(not r3.raised, 'RETURN 100 succeeds')
+    E.prove(hs2[0].stopped is False, 'RETURN <line> from the trap subroutine re-enables that event as well')
+    E.prove(last_seek(it2._program_code) == LINES[100], 'and continues at the given line')
 
 
 def t_command(E, cmd):
